@@ -42,7 +42,7 @@ type c11Case struct {
 	FeedB int  `json:"feed_b,omitempty"`
 }
 
-const c11FreqN = 20000
+const c11FreqN = 8000
 
 var c11Samplers = []string{"dynamic", "emadynamic", "emathroughput", "windowedthroughput", "totalthroughput"}
 
@@ -134,7 +134,7 @@ func genC11Span(t *rapid.T) c811Span {
 
 func genC11Trace(t *rapid.T) c811Trace {
 	var tr c811Trace
-	if rapid.IntRange(0, 24).Draw(t, "wide") == 0 {
+	if rapid.IntRange(0, 24).Draw(t, "wide") == 21 { // not the shrink target
 		// wide: up to 99 distinct values (the statement's "fewer than 100") on f1
 		n := rapid.IntRange(75, 89).Draw(t, "widen")
 		for i := 0; i < n; i++ {
@@ -174,10 +174,21 @@ func genC11(t *rapid.T) c11Case {
 	} else {
 		// B = A after a few edits (so that the two differ in little)
 		c.B = c.A.clone()
-		ne := rapid.IntRange(1, 3).Draw(t, "nedits")
+		if nr, _ := c11SplitFields(c.Fields); len(nr) > 0 && rapid.IntRange(0, 4).Draw(t, "split") == 4 {
+			// aimed at the value separator: A has "ab" where B has "a" and "b" (in two spans)
+			i := rapid.IntRange(0, len(c.A.Spans)-1).Draw(t, "splitspan")
+			f := rapid.SampledFrom(nr).Draw(t, "splitfield")
+			c.A.Spans[i][f] = c811S("ab")
+			c.B.Spans[i][f] = c811S("a")
+			c.B.Spans = append(c.B.Spans, c811Span{f: c811S("b")})
+		}
+		ne := rapid.IntRange(0, 3).Draw(t, "nedits")
 		for e := 0; e < ne; e++ {
 			i := rapid.IntRange(0, len(c.B.Spans)-1).Draw(t, "editspan")
 			f := rapid.SampledFrom(c11SpanFields[:4]).Draw(t, "editfield")
+			if rapid.IntRange(0, 2).Draw(t, "editconfigured") > 0 { // mostly edit a field the key reads
+				f = strings.TrimPrefix(rapid.SampledFrom(c.Fields).Draw(t, "editcfgfield"), "root.")
+			}
 			switch rapid.IntRange(0, 4).Draw(t, "editkind") {
 			case 0:
 				delete(c.B.Spans[i], f)
@@ -733,7 +744,7 @@ func TestC11(t *testing.T) {
 	c11T = t
 	vkit.Run(t, vkit.Spec[c11Case]{
 		ID:   "C11",
-		Rule: "rapid-generated (sampler kind of the five dynsampler-backed samplers, FieldList over {f1,f2,f3,root.f1,root.r,root.f2}, UseTraceLength, trace A of 1-8 spans (1 in 25: 80-99 distinct values) with typed values string/int64/float64/bool/nil incl. look-alikes and delimiter-bearing strings, trace B = edited A or independent, permutation seed, duplication list). The real sampler (built by sample.SamplerFactory) returns the key for A, permuted A, duplicated+permuted A, the distinct-value-sets normal form of A, A without unconfigured fields, B, A again; keys are compared with each other, never with a re-computed string. 1 in 12 cases additionally run the keep-frequency sub-check (20000 decisions per trace after one adjustment interval of virtual time). Non-trivial: >=2 configured fields, >=3 spans, >=2 distinct values. Distinct = distinct case JSON.",
+		Rule: "rapid-generated (sampler kind of the five dynsampler-backed samplers, FieldList over {f1,f2,f3,root.f1,root.r,root.f2}, UseTraceLength, trace A of 1-8 spans (1 in 25: 75-99 distinct values) with typed values string/int64/float64/bool/nil incl. look-alikes and delimiter-bearing strings, trace B = edited A or independent, permutation seed, duplication list). The real sampler (built by sample.SamplerFactory) returns the key for A, permuted A, duplicated+permuted A, the distinct-value-sets normal form of A, A without unconfigured fields, B, A again; keys are compared with each other, never with a re-computed string. about 1 in 16 cases additionally run the keep-frequency sub-check (8000 decisions per trace after one adjustment interval of virtual time). Non-trivial: >=2 configured fields, >=3 spans, >=2 distinct values. Distinct = distinct case JSON.",
 		Assumptions: []string{
 			"'distinct values' are compared as Go type + value for the equal-key direction (a weaker, therefore sound, premise than equality of rendered text)",
 			"for the different-key direction two values count as different only if they differ under any reasonable text rendering (same type and unequal, or different types that are not look-alikes such as \"1\"/1/1.0, \"true\"/true, \"<nil>\"/nil)",
